@@ -126,6 +126,12 @@ impl World {
         }
         let mut config = service::Config::test(Alias::from_str("alice").unwrap());
         config.peers = PeerConfig::Static;
+        // persistent peers: dialled by initialize(), session kept (Disconnected) when the connection drops
+        for p in run["persistent"].as_array().map(|a| a.to_vec()).unwrap_or_default() {
+            let p = p.as_u64().unwrap() as usize;
+            let addr = radicle::node::Address::from(net::SocketAddr::from(([8, 8, 8, p as u8], 8776)));
+            config.connect.insert((nids[p], addr).into());
+        }
         let cfg = peer::Config {
             config,
             local_time: LocalTime::from_millis(T0 as u128),
@@ -344,7 +350,18 @@ impl World {
             "connect" => {
                 let p = us(1);
                 let addr = self.addr(p);
-                self.alice.service.connected(self.nids[p], addr, Link::Inbound);
+                let link = match self.alice.service.sessions().get(&self.nids[p]) {
+                    Some(s) if s.link.is_outbound() && (s.is_initial() || s.is_connecting()) => Link::Outbound,
+                    _ => Link::Inbound,
+                };
+                self.alice.service.connected(self.nids[p], addr, link);
+            }
+            "attempted" => {
+                let p = us(1);
+                let addr = self.addr(p);
+                if self.alice.service.sessions().get(&self.nids[p]).map(|s| s.is_initial()).unwrap_or(false) {
+                    self.alice.service.attempted(self.nids[p], addr);
+                }
             }
             "disconnect" => self.disconnect(us(1)),
             "tick" => {
